@@ -367,3 +367,108 @@ Proof.
     unfold stream_take. cbn [Z.ltb Z.compare]. rewrite ztake_all, zdrop_all by (unfold zlen; lia).
     rewrite Ht2. cbn [text_decode dwrap]. reflexivity.
 Qed.
+
+(* ------------------------------------------------------------------ fixed widths (for StructTag layouts) *)
+(* every in-domain value of a fixed-width type encodes to exactly that many bytes *)
+Definition FW (t : ty) : Prop :=
+  forall w v bs, fixed_width t = Some w -> wf_ty t = true -> in_dom t v = true -> encode t v = Ok bs -> length bs = w.
+(* a hidden host member decodes whatever its bytes are *)
+Definition AD (t : ty) : Prop :=
+  forall w bs rest fuel, always_decodes t = true -> fixed_width t = Some w -> length bs = w ->
+  exists v, decode_fuel fuel t (bs ++ rest) = DOk v rest /\ (is_bits t = true -> exists l, v = VList l).
+
+Lemma fw_none t : fixed_width t = None -> FW t.
+Proof. intros H w v bs Hw. congruence. Qed.
+Lemma ad_none t : always_decodes t = false -> AD t.
+Proof. intros H w bs rest fuel Ha. congruence. Qed.
+
+Lemma fw_TBool : FW TBool.
+Proof.
+  intros w v bs Hw _ Hd. cbn in Hw. injection Hw as <-. cbn [in_dom] in Hd. dom_val v Hd.
+  cbn [encode]. unfold bool_encode, pub_encode. cbn [wrap_all]. intros H. now injection H as <-.
+Qed.
+Lemma ad_TBool : AD TBool.
+Proof.
+  intros w bs rest fuel _ Hw Hl. cbn in Hw. injection Hw as <-. cbn [decode_fuel]. unfold bool_decode.
+  rewrite elem_decode_app by (try exact Hl; lia). cbn [dres_of_res dwrap]. eexists. split; [reflexivity|discriminate].
+Qed.
+
+Lemma fw_TInt sg w0 : FW (TInt sg w0).
+Proof.
+  intros w v bs Hw _ Hd. cbn in Hw. injection Hw as <-. cbn [in_dom] in Hd. dom_val v Hd.
+  cbn [encode]. rewrite int_encode_ok by exact Hd. intros H. injection H as <-. apply le_enc_length.
+Qed.
+Lemma ad_TInt sg w0 : AD (TInt sg w0).
+Proof.
+  intros w bs rest fuel Ha Hw Hl. cbn in Hw. injection Hw as <-. cbn [always_decodes] in Ha.
+  cbn [decode_fuel]. unfold int_decode. rewrite elem_decode_app by (try exact Hl; lia).
+  unfold unpack_int. rewrite Hl, Nat.eqb_refl. cbn [dres_of_res dwrap]. eexists. split; [reflexivity|discriminate].
+Qed.
+
+Lemma fw_TReal dbl : FW (TReal dbl).
+Proof.
+  intros w v bs Hw _ Hd He. cbn in Hw. injection Hw as <-.
+  cbn [in_dom] in Hd. dom_val v Hd. unfold real_dom in Hd.
+  apply andb_prop in Hd as [Hd H3]. cbn [encode] in He. unfold real_encode, pub_encode, pack_real in He. cbn [as_float bind] in He.
+  destruct dbl.
+  - cbn [wrap_all] in He. injection He as <-. first [apply le_enc_length|reflexivity].
+  - destruct (round32 bits); [|discriminate]. cbn [wrap_all] in He. injection He as <-. first [apply le_enc_length|reflexivity].
+Qed.
+Lemma ad_TReal dbl : AD (TReal dbl).
+Proof.
+  intros w bs rest fuel _ Hw Hl. cbn in Hw. injection Hw as <-. cbn [decode_fuel]. unfold real_decode.
+  rewrite elem_decode_app by (try exact Hl; destruct dbl; lia).
+  unfold unpack_real. rewrite Hl. destruct dbl; cbn [Nat.eqb dres_of_res dwrap]; eexists; (split; [reflexivity|discriminate]).
+Qed.
+
+Lemma fw_TBits w0 : FW (TBits w0).
+Proof.
+  intros w v bs Hw _ Hd. cbn in Hw. injection Hw as <-. cbn [in_dom] in Hd. dom_val v Hd.
+  apply andb_prop in Hd as [Hl _]. cbn [encode]. rewrite bits_encode_ok by lia. intros H. injection H as <-. apply le_enc_length.
+Qed.
+Lemma ad_TBits w0 : AD (TBits w0).
+Proof.
+  intros w bs rest fuel Ha Hw Hl. cbn in Hw. injection Hw as <-. cbn [always_decodes] in Ha.
+  cbn [decode_fuel]. unfold bits_decode, int_decode. rewrite elem_decode_app by (try exact Hl; lia).
+  unfold unpack_int. rewrite Hl, Nat.eqb_refl. cbn [dres_of_res dwrap dbind]. eexists. split; [reflexivity|]. intros _. eexists. reflexivity.
+Qed.
+
+Lemma fw_TFixedStr size lsg lw cap : FW (TFixedStr size lsg lw cap).
+Proof.
+  intros w v bs Hw _ Hd. cbn in Hw. injection Hw as <-. cbn [in_dom] in Hd. dom_val v Hd.
+  apply andb_prop in Hd as [Hd Hc]. cbn [encode]. rewrite fixedstr_encode_ok by exact Hd.
+  intros H. injection H as <-. rewrite !app_length, le_enc_length, zeros_length. lia.
+Qed.
+
+Lemma fw_TIPAddr : FW TIPAddr.
+Proof.
+  intros w v bs Hw _ Hd He. cbn in Hw. injection Hw as <-.
+  destruct (rt_TIPAddr eq_refl v [] Hd (fun _ => eq_refl)) as (bs' & He' & _).
+  rewrite He in He'. injection He' as <-.
+  cbn [in_dom] in Hd. dom_val v Hd. unfold ip_dom in Hd.
+  cbn [encode] in He. unfold ip_encode, pub_encode in He.
+  destruct (parse_ipv4 s) as [b4|] eqn:Ep; [|discriminate]. cbn [wrap_all] in He. injection He as <-.
+  unfold parse_ipv4 in Ep. destruct (map octet (split_dot s [])) as [|[o1|] [|[o2|] [|[o3|] [|[o4|] [|? ?]]]]]; try discriminate.
+  injection Ep as <-. reflexivity.
+Qed.
+Lemma ad_TIPAddr : AD TIPAddr.
+Proof.
+  intros w bs rest fuel _ Hw Hl. cbn in Hw. injection Hw as <-.
+  destruct bs as [|a [|b [|c [|d [|? ?]]]]]; try discriminate Hl.
+  cbn [decode_fuel]. unfold ip_decode. change 4 with (zlen [a; b; c; d]). rewrite stream_read_app by discriminate.
+  cbn [dwrap]. eexists. split; [reflexivity|discriminate].
+Qed.
+
+Lemma fw_TPcccAscii : FW TPcccAscii.
+Proof.
+  intros w v bs Hw _ Hd He. cbn in Hw. injection Hw as <-.
+  destruct (rt_TPcccAscii eq_refl v [] Hd (fun _ => eq_refl)) as (bs' & He' & _).
+  rewrite He in He'. injection He' as <-.
+  cbn [in_dom] in Hd. dom_val v Hd.
+  apply andb_prop in Hd as [Hl Hs]. destruct s as [|c1 [|c2 [|? ?]]]; try discriminate.
+  cbn [forallb] in Hs. apply andb_prop in Hs as [H1 Hs]. apply andb_prop in Hs as [H2 _].
+  cbn [encode] in He. unfold pccc_ascii_encode, pub_encode in He. rewrite pccc_ascii_enc_latin1 in He.
+  cbn [py_slice slice skipn firstn Nat.sub bind py_iter map or_space_encode truthy text_encode] in He.
+  rewrite (single_byte_enc_char Latin1 c1 H1), (single_byte_enc_char Latin1 c2 H2) in He.
+  cbn in He. injection He as <-. reflexivity.
+Qed.
